@@ -19,13 +19,17 @@ from ..core import where_of, trace_of
 from ..interp import fmt, contains, subterms
 from ..model import AnalysisError, ClassInfo
 from .. import q
+from .. import roles
 from .c03 import terminal_on
 
 SETTERS = ("set_result", "set_exception", "set_exception_info")
 
 
+LOCKF = [None]
+
+
 def own_lock(it, p, selfterm=("param", "self")):
-    return ("attr", selfterm, "_me_lock")
+    return ("attr", selfterm, LOCKF[0])
 
 
 def check(ctx, rep):
@@ -35,13 +39,14 @@ def check(ctx, rep):
     rep.rule("R-CANCEL", "cancel(): cancelled -> True; done -> False; falsy veto -> False without touching the state; else stdlib cancel, then set_running_or_notify_cancel under the lock and one callback dispatch outside it; returns only True/False/the stdlib result; never raises")
     rep.rule("R-NOTIFY", "a future allocated by the library is terminal on every path before it escapes, or its class pairs every successful cancel with exactly one set_running_or_notify_cancel")
     rep.rule("R-JOBPOP", "every removal of a retry job happens after its future was resolved or found done, or with that future's lock held, or in the same executor-lock region as the insertion of its replacement")
-    fut = prog.cls("_Future")
-    lockf = "_me_lock"
-    rep.require(ctx.types.lock_kind_of_field(fut, lockf) is not None, "_Future._me_lock not found")
+    P = roles.proto(ctx)
+    fut = P.fut
+    lockf = LOCKF[0] = P.lock
+    HOOK = P.hook
+    SELF = ("param", "self")
     concrete = [c for c in prog.subclasses(fut, strict=True)]
     rep.count("concrete _Future subclasses", len(concrete), 7)
-    inv = fut.methods.get("_me_invoke_callbacks")
-    rep.require(inv is not None, "_Future._me_invoke_callbacks not found")
+    inv = P.dispatch
 
     # ------------------------------------------------------------------ R-SETTER
     for ci in concrete:
@@ -86,7 +91,7 @@ def check(ctx, rep):
         for c in ci.mro():
             if isinstance(c, ClassInfo):
                 for name, m in c.methods.items():
-                    if ci.lookup(name)[1] is m and name in ("running", "_me_cancel"):
+                    if ci.lookup(name)[1] is m and name in ("running", HOOK):
                         roots.append(m)
         for m in roots:
             ps, it = ctx.paths(m, ci, depth=3, inline=_no_cb_inline)
@@ -125,11 +130,11 @@ def check(ctx, rep):
     for p in ps:
         if p.status == "raise":
             rep.ob("R-SETTER", "_me_invoke_callbacks contains callback exceptions", False, "an exception from a callback escapes the dispatcher", where_of(inv), trace_of(p))
-        resets = [e for e in p.evs("store") if q.self_field(e.d["target"], "_me_done_callbacks")]
+        resets = [e for e in p.evs("store") if q.self_field(e.d["target"], P.cbs)]
         if p.status == "return":
             rep.ob("R-SETTER", "_me_invoke_callbacks drops the callbacks after dispatch", len(resets) == 1 and q.deref(p, resets[0].d["value"]) == ("list", ()), "the callback list is not reset after dispatch (a second dispatch would call them again)", where_of(inv), trace_of(p))
     loops = [e for p in ps for e in p.evs("loop") if e.d[0] == "enter"]
-    rep.ob("R-SETTER", "_me_invoke_callbacks iterates the private list", bool(loops) and all(e.d[1] == ("attr", ("param", "self"), "_me_done_callbacks") for e in loops), "", where_of(inv))
+    rep.ob("R-SETTER", "_me_invoke_callbacks iterates the private list", bool(loops) and all(roles.container_of(e.d[1]) == P.CBS for e in loops), "", where_of(inv))
 
     # ------------------------------------------------------------------- R-ADDCB
     adc = fut.methods.get("add_done_callback")
@@ -141,7 +146,7 @@ def check(ctx, rep):
         if p.status == "raise" :
             continue
         tests = [e for e in p.evs("branch") if isinstance(e.d[0], tuple) and e.d[0][0] == "call" and e.d[0][1] == ("attr", ("param", "self"), "done")]
-        apps = [e for e in p.calls() if q.call_name(e) == "append" and q.recv(e) == ("attr", ("param", "self"), "_me_done_callbacks")]
+        apps = [e for e in p.calls() if q.call_name(e) == "append" and q.recv(e) == P.CBS]
         direct = [e for e in p.calls() if e.d.get("user") and e.d["func"] == ("param", adc.params[1])]
         rep.require(len(tests) == 1, "add_done_callback: expected one done() test per path")
         t = tests[0]
@@ -153,7 +158,7 @@ def check(ctx, rep):
             ok = not apps and len(direct) == 1 and not q.has_lock(direct[0], L) and direct[0].d["args"] == (("param", "self"),)
             rep.ob("R-ADDCB", key + ": direct call outside the lock", ok, "on a done future the callback must be called exactly once, with the future, without self._me_lock (appended: %d, called: %d, lock held at call: %s)" % (len(apps), len(direct), bool(direct and q.has_lock(direct[0], L))), where_of(adc), trace_of(p))
         else:
-            same_hold = len(apps) == 1 and q.has_lock(apps[0], L) and not [e for e in p.evs("exit") if e.d[1] == L and t.seq < e.seq < apps[0].seq]
+            same_hold = len(apps) == 1 and q.has_lock(apps[0], L) and roles.held_throughout(p, L, t, apps[0])
             ok = same_hold and not direct and apps[0].d["args"] == (("param", adc.params[1]),)
             rep.ob("R-ADDCB", key + ": append in the same critical section", ok, "on a pending future the callback must be appended under the same hold of the lock as the done() test and not called (appended: %d, called: %d)" % (len(apps), len(direct)), where_of(adc), trace_of(p))
     rep.require(kinds == {True, False}, "add_done_callback: expected a done and a pending path")
@@ -175,11 +180,11 @@ def check(ctx, rep):
                 continue
             stdc = [e for e in p.calls() if q.is_super_call(e, "cancel") and e.d["func"][1][2] == ("param", "self") and e.d["callee"] is None]
             notif = [e for e in p.calls() if q.call_name(e) == "set_running_or_notify_cancel" and q.recv(e) == ("param", "self")]
-            disp = [e for e in p.calls() if e.d["callee"] is inv and len(e.stack) == 0]
-            veto = [e for e in p.calls() if q.call_name(e) == "_me_cancel" and q.recv(e) == ("param", "self")]
+            disp = [e for e in p.calls() if e.d["callee"] is inv and q.recv(e) == SELF]
+            veto = [e for e in p.calls() if q.call_name(e) == HOOK and q.recv(e) == SELF]
             atoms = dict((fmt(t), v) for t, v in p.branch_atoms())
             v = p.value
-            okret = v in (("const", True), ("const", False)) or (stdc and v == ("call", stdc[0].d["func"], stdc[0].d["args"], stdc[0].d["kwargs"], None))
+            okret = v in (("const", True), ("const", False)) or (stdc and v == q.result_of(stdc[0]))
             rep.ob("R-CANCEL", key0 + " returns a bool", okret, "cancel() returns %s" % fmt(v), where_of(cm), trace_of(p))
             if atoms.get("self.cancelled()") is True:
                 seen.add("cancelled")
@@ -191,8 +196,7 @@ def check(ctx, rep):
                 seen.add("veto")
                 rep.ob("R-CANCEL", key0 + ": veto -> False, state untouched", v == ("const", False) and not notif and not disp and len(veto) == 1, "a vetoed cancel must answer False and leave the future alone", where_of(cm), trace_of(p))
             else:
-                res = ("call", stdc[0].d["func"], stdc[0].d["args"], stdc[0].d["kwargs"], None)
-                succeeded = p.assume.get(res)
+                succeeded = q.truth_of(p, q.result_of(stdc[0]))
                 seen.add("cancel-%s" % succeeded)
                 L = ("attr", ("param", "self"), lockf)
                 ok = len(stdc) == 1 and q.has_lock(stdc[0], L) and len(veto) == 1 and veto[0].seq < stdc[0].seq
@@ -361,7 +365,7 @@ def trans_rule(ctx, rep, concrete, inv, lockf):
 
 def _same_class_inline(own):
     def pol(callee, ev, path):
-        if callee.name == "_me_invoke_callbacks":
+        if roles.is_dispatch(callee):
             return False
         if callee.key in own:
             r = q.recv(ev)
@@ -372,7 +376,7 @@ def _same_class_inline(own):
 
 def _no_cb_inline(callee, ev, path):
     # do not descend into the callback dispatcher (user code) nor into logging / metrics
-    if callee.name == "_me_invoke_callbacks":
+    if roles.is_dispatch(callee):
         return False
     if callee.qualname in ("track_future", "record_done"):
         return False
